@@ -85,7 +85,8 @@ def native_get_batch():
     import numpy as np, jax
     from jinns.data._DataGenerators import CubicMeshPDENonStatio
     msgs = []
-    for dim, cart, tb, ob, bb in [(1, False, 3, 3, None), (2, False, 2, 2, 2), (1, True, 2, 3, 1), (2, True, 3, 2, 2)]:
+    for dim, cart, tb, ob, bb in [(1, False, 3, 3, None), (2, False, 2, 2, 2), (1, True, 2, 3, 1), (2, True, 3, 2, 2),
+                                  (1, 0, 3, 3, None), (2, np.False_, 2, 2, 2), (2, False, 3, 3, 3)]:
         g = CubicMeshPDENonStatio(key=jax.random.PRNGKey(4), n=6, nb=(8 if dim == 2 else 2), nt=6, omega_batch_size=ob,
                                   omega_border_batch_size=(bb if dim == 2 else 1), temporal_batch_size=tb, dim=dim,
                                   min_pts=(0.0,) * dim, max_pts=(1.0,) * dim, tmin=5.0, tmax=6.0, cartesian_product=cart)
@@ -163,8 +164,12 @@ def bijection_ob():
     return FnObligation(name, run, [DG + "make_cartesian_product"], native_fallback=lambda: native_product({}))
 
 
-def get_batch_ob(dim, cartesian, with_border):
-    name = f"C14/CubicMeshPDENonStatio.get_batch/ensures[dim={dim},cartesian={int(cartesian)},border={int(with_border)}]"
+def get_batch_ob(dim, cartesian, with_border, flag=None):
+    """flag: the object actually stored in cartesian_product (default: the bool itself).  Any falsy flag (False, 0, a numpy
+    False) is what the constructor validates as "paired"; get_batch must then pair"""
+    flag = cartesian if flag is None else flag
+    name = (f"C14/CubicMeshPDENonStatio.get_batch/ensures[dim={dim},cartesian={int(cartesian)},border={int(with_border)}"
+            f"{'' if flag is cartesian else ',flag_given_as=' + repr(flag)}]")
     def run(seed):
         t0 = time.time()
         ex = Executor([SRC, "/repo/jinns/data/_Batchs.py"])
@@ -174,7 +179,7 @@ def get_batch_ob(dim, cartesian, with_border):
         dx = arr("dx", ((1 if dim == 1 else bb), dim, F)) if with_border else None
         rec = Rec("CubicMeshPDENonStatio", dict(temporal_batch_size=bt, omega_batch_size=bx,
                                                 omega_border_batch_size=(bb if with_border else None), dim=dim,
-                                                cartesian_product=cartesian))
+                                                cartesian_product=flag))
         # callees replaced by their contracts (C09): declared shape, arbitrary contents, the generator is returned
         ex.contracts["CubicMeshPDEStatio.inside_batch"] = lambda ex_, fv, a, k, pc: [((fv.self_val, x), pc)]
         ex.contracts["CubicMeshPDEStatio.border_batch"] = lambda ex_, fv, a, k, pc: [((fv.self_val, dx), pc)]
@@ -229,4 +234,6 @@ def obligations(tier):
         for cart in (True, False):
             for border in (True, False):
                 obs.append(get_batch_ob(dim, cart, border))
+        obs.append(get_batch_ob(dim, False, True, flag=0))
+        obs.append(get_batch_ob(dim, True, True, flag=1))
     return obs
